@@ -240,7 +240,36 @@ func execPipe(op string) (res string) {
 						<-done
 					}
 				}()
-				mfs, err := reg.Gather()
+				// Gather runs the collectors' Write methods; a summary whose stream duration is a few nanoseconds chases the
+				// wall clock there and never returns (the goroutine is left behind; the history is over)
+				type gres struct {
+					mfs []*dto.MetricFamily
+					err error
+					pan any
+				}
+				gch := make(chan gres, 1)
+				go func() {
+					defer func() {
+						if e := recover(); e != nil {
+							gch <- gres{pan: e}
+						}
+					}()
+					m, e := reg.Gather()
+					gch <- gres{mfs: m, err: e}
+				}()
+				var g gres
+				select {
+				case g = <-gch:
+				case <-time.After(10 * time.Second):
+					outs = append(outs, "gather-hang")
+					infos = append(infos, "stalled")
+					dead = true
+					return
+				}
+				if g.pan != nil {
+					panic(g.pan)
+				}
+				mfs, err := g.mfs, g.err
 				if err != nil {
 					outs = append(outs, "gather-error")
 					e := err.Error()
